@@ -19,14 +19,18 @@ CompleteBody(st) == "{\"state\":\"" \o StateName[st] \o "\",\"value\":{\"data\":
 
 \* a look follows every step after which the stored state is worth looking at
 NeedsLook(o) == o.op \in {"start", "wait", "kill", "term", "burst", "startkill"}
-RECURSIVE Expand(_, _)
-Expand(h, isUp) ==
+\* (sh: the short-lived promise exists; sec: the every-second schedule exists - what a wait has to wait for)
+RECURSIVE Expand(_, _, _, _)
+Expand(h, isUp, sh, sec) ==
   IF h = <<>> THEN
     (IF isUp THEN << [op |-> "term"], [op |-> "look", up |-> FALSE] >> ELSE <<>>)
-    \o << [op |-> "startkill", ms |-> 15], [op |-> "start"], [op |-> "wait"], [op |-> "look", up |-> TRUE] >>
+    \o << [op |-> "startkill", ms |-> 15], [op |-> "start"], [op |-> "wait", up |-> TRUE, sh |-> sh, sec |-> sec], [op |-> "look", up |-> TRUE] >>
   ELSE LET o == Head(h)
            nowUp == IF o.op \in {"kill", "term", "burst"} THEN FALSE ELSE IF o.op = "start" THEN TRUE ELSE isUp
-       IN <<o>> \o (IF NeedsLook(o) THEN << [op |-> "look", up |-> nowUp] >> ELSE <<>>) \o Expand(Tail(h), nowUp)
+           sh2 == sh \/ o.op = "createshort"
+           sec2 == IF o.op = "createschedule" THEN o.kind = "secondly" ELSE IF o.op = "deleteschedule" THEN FALSE ELSE sec
+           o2 == IF o.op = "wait" THEN [op |-> "wait", up |-> isUp, sh |-> sh, sec |-> sec] ELSE o
+       IN <<o2>> \o (IF NeedsLook(o) THEN << [op |-> "look", up |-> nowUp] >> ELSE <<>>) \o Expand(Tail(h), nowUp, sh2, sec2)
 
 Big == "@LONG@@LONG@@LONG@@LONG@@LONG@@LONG@@LONG@@LONG@@LONG@@LONG@"    \* 100 kB (of base64)
 BigBody(id) == "{\"id\":\"" \o id \o "\",\"timeout\":" \o Far \o ",\"param\":{\"data\":\"" \o Big \o "\"},\"tags\":{\"resonate:invoke\":\"poll://default/w\"}}"
@@ -50,7 +54,11 @@ StepsOf(i, o) ==
     [] o.op = "acquire" -> << Http(i, "main", "acquire", "POST", "/locks/acquire", "{\"resourceId\":\"l\",\"executionId\":\"e\",\"processId\":\"w\",\"ttl\":3600000}") >>
     [] o.op = "release" -> << Http(i, "main", "release", "POST", "/locks/release", "{\"resourceId\":\"l\",\"executionId\":\"e\"}") >>
     [] o.op = "createshort" -> << Http(i, "main", "createshort", "POST", "/promises", "{\"id\":\"t\",\"timeout\":@NOW+400@}") >>
-    [] o.op = "wait" -> << [do |-> "sleep", i |-> i, role |-> "main", ms |-> 1600] >>
+    \* long enough for the short promise to run out; then the harness looks until the background work
+    \* the model expects has been done (at most 12 s: a loaded machine is slow, a dead sweep never gets there)
+    [] o.op = "wait" -> << [do |-> "sleep", i |-> i, role |-> "main", ms |-> 600] >>
+                        \o (IF o.up /\ o.sh THEN << [do |-> "rows", i |-> i, role |-> "aux", ms |-> 12000, until |-> [table |-> "promises", id |-> "t", state |-> 16]] >> ELSE <<>>)
+                        \o (IF o.up /\ o.sec THEN << [do |-> "rows", i |-> i, role |-> "aux", ms |-> 12000, until |-> [table |-> "promises", sched |-> "s"]] >> ELSE <<>>)
     [] o.op = "kill" -> << [do |-> "kill", i |-> i, role |-> "main"] >>
     [] o.op = "term" -> << [do |-> "term", i |-> i, role |-> "main"] >>
     [] o.op = "start" -> << [do |-> "start", i |-> i, role |-> "main"] >>
@@ -71,7 +79,7 @@ StepsOf(i, o) ==
 RECURSIVE Translate(_, _)
 Translate(ops, i) == IF i > Len(ops) THEN <<>> ELSE StepsOf(i, ops[i]) \o Translate(ops, i + 1)
 
-Scenario == LET ops == Expand(hist, TRUE) IN [ops |-> ops, steps |-> Translate(ops, 1)]
+Scenario == LET ops == Expand(hist, TRUE, FALSE, FALSE) IN [ops |-> ops, steps |-> Translate(ops, 1)]
 Emit == (n = MaxSteps) => PrintT(<<"DURGEN", ToJson(Scenario)>>)
 
 \* generator bias: no kill straight after a start (startkill is that case), no two crashes during one recovery
